@@ -73,6 +73,43 @@ def _canon_attrs(v):
     return repr(v)
 
 
+def delete_table(ctx, program, rid):
+    from ..flow import FlowPolicy, exits, run_flow
+    uid = "state.py::State.delete"
+    cases = [("d.e.a", {"a": 1, "b": 2}, None, {"b": 2}), ("d.e.a", {"a": None, "b": 2}, None, {"b": 2}), ("d.e.a", {"a": 0}, None, {}), ("d.e.a", {"a": ""}, None, {}),
+             ("d.e.a", {"a": False, "z": None}, None, {"z": None}), ("d.e.a", {"b": 2}, "AttributeError", None), ("d.e.a", {}, "AttributeError", None),
+             ("d.e.a", None, "NameError", None), ("d.e", {"a": 1}, None, "removed"), ("d.e", None, "NameError", None), ("d.e.a.x", {"a": 1}, "NameError", None), ("plain", {"a": 1}, "NameError", None)]
+    for name, attrs, exc, after in cases:
+        st = ObjV("st", "State") if attrs is not None else NONE
+        heap = {"st.attributes": DictV([(Const(k), Const(v)) for k, v in (attrs or {}).items()]), "st.state": Const("on"), "State.notify_var_last": DictV([]), "State.notify": DictV([])}
+        pol = FlowPolicy(program, may_raise_all=False, cancel=False, events=["cls.set", "cls.hass.states.async_remove"],
+                         summaries={"cls.hass.states.get": lambda i, n, a, k, c, o, st=st: [(c, st)], "Function.task2context.get": lambda i, n, a, k, c, o: [(c, NONE)],
+                                    "asyncio.current_task": lambda i, n, a, k, c, o: [(c, NONE)]})
+        pol.summaries["cls.hass.states.async_remove"] = lambda i, n, a, k, c, o, ok=attrs is not None: [(c.emit(("call", "remove", tuple(a), (), 0)), Const(ok))]
+        out = run_flow(program, uid, pol, args={"cls": ClassV("State"), "var_name": Const(name), "context": NONE}, heap=heap)
+        got = set()
+        for k, c, d in exits(out):
+            sets = [e for e in c.trace if e[0] == "call" and e[1] == "cls.set"]
+            rem = [e for e in c.trace if e[0] == "call" and e[1] == "remove"]
+            if k == "raise":
+                got.add(("raise", getattr(c.env.get("$exc"), "cls", "?"), len(sets)))
+            elif rem and not sets:
+                got.add(("removed",))
+            elif len(sets) == 1:
+                na = dict(sets[0][3]).get("new_attributes")
+                got.add(("set", tuple(sorted((kk.v, vv.v) for kk, vv in na.items)) if isinstance(na, DictV) and all(isinstance(vv, Const) for _, vv in na.items) else repr(na)))
+            else:
+                got.add(("return", len(sets), len(rem)))
+        if exc:
+            want = {("raise", exc, 0)}
+        elif after == "removed":
+            want = {("removed",)}
+        else:
+            want = {("set", tuple(sorted(after.items(), key=lambda kv: kv[0])))}
+        ctx.check(got == want, rid, uid, f"del {name} with attributes {attrs}", msg=f"State.delete('{name}') on an entity with attributes {attrs}: {sorted(map(repr, got))}, documented {sorted(map(repr, want))}",
+                  key=f"delete {name} {attrs}", node=program.func(uid), rel="state.py")
+
+
 def run(ctx):
     program = ctx.program
     fn = program.func(SET)
@@ -193,6 +230,10 @@ def run(ctx):
     ctx.check(raises.count("NameError") >= 2 and "AttributeError" in raises, "R16.4", "state.py::State.delete", "delete raises NameError / AttributeError",
               msg=f"State.delete raises {raises}", key="delete exception types", node=d, rel="state.py")
 
+    ctx.rule("R16.8", "State.delete: `del d.e.attr` removes exactly that attribute whatever its value (None, 0, '' included) and raises AttributeError only when it is absent; "
+             "`del d.e` removes the entity or raises NameError; other shapes raise NameError", floor=8)
+    delete_table(ctx, program, "R16.8")
+
     # R16.5 snapshots are copies ----------------------------------------------------------------------------------------
     ctx.rule("R16.5", "values handed to scripts are copies: StateVal copies the attribute mapping, getattr/delete copy before changing", floor=4)
     new = program.func("state.py::StateVal.__new__")
@@ -221,6 +262,24 @@ def run(ctx):
             bad0 = f"attributes copied wrongly: {own!r} / source now {c.heap.get('ha_state.attributes')!r}"
     ctx.check(bool(ex0) and bad0 is None, "R16.5", "state.py::StateVal.__new__", "snapshot owns a copy of the attributes", msg=f"StateVal(state): {bad0 or 'no exit'}",
               key="StateVal copies attributes", node=new, rel="state.py")
+    # nested containers: a list/dict-valued attribute of the snapshot must not be the object Home Assistant (and every other snapshot) holds
+    nested = DictV([(Const("k"), Const(1))], "ha_state.attributes[hist]")
+    attrs1 = DictV([(Const("a"), Const(1)), (Const("hist"), nested)])
+    out1 = _run0(program, "state.py::StateVal.__new__", pol0, args={"cls": ClassV("StateVal"), "state": ObjV("ha_state", "State")},
+                 heap={"ha_state.attributes": attrs1, "ha_state.attributes[hist]": DictV(nested.items), "ha_state.state": Const("on"), "ha_state.entity_id": Const("d.e"),
+                       "ha_state.last_updated": Const(1), "ha_state.last_changed": Const(1), "ha_state.last_reported": Const(1)})
+    bad1 = None
+    ex1 = _exits0(out1)
+    for k, c, d in ex1:
+        own = c.heap.get("snapshot.__dict__")
+        inner = own.get(Const("hist")) if isinstance(own, DictV) else None
+        if k != "return" or not isinstance(inner, DictV):
+            bad1 = f"the snapshot's container-valued attribute is {inner!r} ({d})"
+        elif inner.origin is not None:
+            bad1 = ("a list/dict-valued attribute of the snapshot is the very object held by Home Assistant's state (shallow copy): `x = d.e.hist; x.append(..)` changes every "
+                    "captured snapshot of d.e and the state machine's own copy, without any state_changed event")
+    ctx.check(bool(ex1) and bad1 is None, "R16.5", "state.py::StateVal.__new__", "container-valued attributes of a snapshot are copies too", msg=f"StateVal(state): {bad1 or 'no exit'}",
+              key="StateVal shares nested attribute values", node=new, rel="state.py")
     # what scripts get back never aliases the snapshot / Home Assistant's mapping, and taking it does not change them (alias analysis on scenarios)
     from ..flow import FlowPolicy as _FP, exits as _exits, run_flow as _run
     virt = const_set(program.module_const("state.py", "STATE_VIRTUAL_ATTRS")) or set()
